@@ -162,7 +162,16 @@ class SchulzZimm(Distribution):
         """Flory Schulz distribution."""
 
         def _pmf(self, M, z, Mn):
-            return z ** (z + 1) / special.gamma(z + 1) * M ** (z - 1) / Mn**z * np.exp(-z * M / Mn)
+            # Evaluated in log space: for a narrow distribution (large z) the powers and the gamma function overflow
+            # far out in the tail, and the product came out as nan or 1 instead of 0.
+            log_pmf = (
+                (z + 1) * np.log(z)
+                - special.gammaln(z + 1)
+                + special.xlogy(z - 1, M)
+                - z * np.log(Mn)
+                - z * M / Mn
+            )
+            return np.exp(log_pmf)
 
     def __init__(self, raw_text):
         """
